@@ -31,6 +31,9 @@ type Case struct {
 	FixedKey  string
 	FixedVals []string
 	FixedText string
+	// a second fixed list in the same projection expression ("" = none)
+	Fixed2Key  string
+	Fixed2Vals []string
 	// ProjectFirst: the result is projected through the fixed-list projection before it is filtered
 	ProjectFirst bool
 	// FailedParse, if non-empty, is a projection expression with a fixed list followed by an
@@ -112,14 +115,11 @@ func Check(c Case) (v vcase.Verdict) {
 			}
 			v.Label("projected_before_filtering")
 		}
-		val := refexpr.Extract(ref, c.FixedKey)
-		fixedOK = false
-		for _, x := range c.FixedVals {
-			if x == val {
-				fixedOK = true
-			}
-		}
+		fixedOK = fixedPass(c, ref)
 		v.Label("fixed_list")
+		if c.Fixed2Key != "" {
+			v.Label("two_fixed_lists")
+		}
 	}
 	want := make([]bool, n)
 	all, any := true, false
@@ -133,6 +133,27 @@ func Check(c Case) (v vcase.Verdict) {
 	if err != nil {
 		v.Failf("Match error %v", err)
 		return
+	}
+	if n > 1 {
+		// the filter goes on to another result of the same size (the measurements in reverse
+		// order) before the first Match is looked at: each Match describes its own result
+		c2 := c
+		c2.Units = make([]string, n)
+		for i, u := range c.Units {
+			c2.Units[n-1-i] = u
+		}
+		res2, ref2 := build(c2)
+		m2, err := f.Match(res2)
+		if err != nil || len(res2.Values) != n {
+			v.Failf("Match error %v", err)
+			return
+		}
+		for i := 0; i < n; i++ {
+			if w := fixedOK && refexpr.Eval(c.Tree, ref2, i); m2.Test(i) != w {
+				v.Failf("filter %q on %s, measurements in reverse order: measurement %d (%s) matched=%v, reference %v", c.Text, describe(c), i, c2.Units[i], m2.Test(i), w)
+				return
+			}
+		}
 	}
 	if !reflect.DeepEqual(before.Values, res.Values) || !cfgEq(before.Config, res.Config) || string(before.Name) != string(res.Name) {
 		v.Failf("Match modified the result")
@@ -207,16 +228,7 @@ func Check(c Case) (v vcase.Verdict) {
 		_, ref2 := build(c2)
 		f.Match(res) // (the last thing the filter saw is this very object)
 		res.Name = append(res.Name[:0], alt...)
-		fixedOK2 := true
-		if c.FixedKey != "" {
-			val := refexpr.Extract(ref2, c.FixedKey)
-			fixedOK2 = false
-			for _, x := range c.FixedVals {
-				if x == val {
-					fixedOK2 = true
-				}
-			}
-		}
+		fixedOK2 := c.FixedKey == "" || fixedPass(c, ref2)
 		m2, _ := f.Match(res)
 		for i := 0; i < n; i++ {
 			if w := fixedOK2 && refexpr.Eval(c.Tree, ref2, i); m2.Test(i) != w {
@@ -244,6 +256,20 @@ func Check(c Case) (v vcase.Verdict) {
 	}
 	v.NonTrivial = st.Ops >= 2 && st.UnitLeaves > 0 && st.WholeLeaves > 0 && mixed
 	return
+}
+
+// fixedPass reports whether the result's values are in every fixed list of the case.
+func fixedPass(c Case, ref *refexpr.Result) bool {
+	in := func(key string, vals []string) bool {
+		val := refexpr.Extract(ref, key)
+		for _, x := range vals {
+			if x == val {
+				return true
+			}
+		}
+		return false
+	}
+	return in(c.FixedKey, c.FixedVals) && (c.Fixed2Key == "" || in(c.Fixed2Key, c.Fixed2Vals))
 }
 
 // altName returns a name of the same length with the sub-name parts in another
@@ -290,7 +316,9 @@ func describe(c Case) string {
 
 var names = []string{"Foo", "Foo/size=4k", "Foo/size=4k/kind=a-8", "Bar-16", "Bar/gomaxprocs=2", "X/a=/b=1", "é/k=v", "Foo/size=1M-4", "Foo-9", "Foo/size=4k-192", "Bar/kind=big-endian/size=9-96", "Foo/gomaxprocs=2-8",
 	// empty base name (sub-benchmarks of a function called just "Benchmark"), values containing '='
-	"/size=4k-8", "/kind=a", "/", "Foo/size=x=1/kind=a=b-4"}
+	"/size=4k-8", "/kind=a", "/", "Foo/size=x=1/kind=a=b-4",
+	// a dash that is not followed by digits belongs to the name
+	"Parse/kind=-", "Trim-", "Foo/kind=a--8", "X/size=-/kind=-", "Foo/size=4k-", "Bar--", "Foo/kind=-8"}
 var cfgKeys = []string{"goos", "pkg", "a", ".file", "note"}
 var cfgVals = []string{"linux", "darwin", "x y", "1", "p/q", "é", "-v", "*", "a:b", "(x)", "AND"}
 var safeRegexps = []string{"^F", "oo$", "4k|1M", "^$", ".", "[a-f]+", "^(linux|darwin)$", "s.c", "B", "^[0-9]+$", "x y", "^ns", "^MB", "ns.op$", "^sec", "^9", "9",
@@ -443,6 +471,25 @@ func Gen(t *rapid.T) Case {
 			ws = append(ws, strconv.Quote(x))
 		}
 		c.FixedText = strconv.Quote(c.FixedKey) + "@(" + strings.Join(ws, " ") + ")"
+		if rapid.Bool().Draw(t, "fixed2") {
+			// a second fixed list on another key of the same expression: both must hold
+			c.Fixed2Key = rapid.SampledFrom([]string{"/kind", "pkg", "a", "note"}).Draw(t, "fk2")
+			var ws2 []string
+			for i := rapid.IntRange(1, 2).Draw(t, "nfv2"); i > 0; i-- {
+				x := refexpr.Extract(ref, c.Fixed2Key)
+				if !rapid.Bool().Draw(t, "fv2hit") {
+					x = rapid.SampledFrom([]string{"a", "linux", "1", "zz", ""}).Draw(t, "fv2")
+				}
+				c.Fixed2Vals = append(c.Fixed2Vals, x)
+				ws2 = append(ws2, strconv.Quote(x))
+			}
+			second := strconv.Quote(c.Fixed2Key) + "@(" + strings.Join(ws2, " ") + ")"
+			if rapid.Bool().Draw(t, "fixed2first") {
+				c.FixedText = second + rapid.SampledFrom([]string{",", " ", " , "}).Draw(t, "fsep") + c.FixedText
+			} else {
+				c.FixedText += rapid.SampledFrom([]string{",", " ", " , "}).Draw(t, "fsep") + second
+			}
+		}
 		c.ProjectFirst = rapid.Bool().Draw(t, "projectfirst")
 	}
 	return c
